@@ -175,12 +175,13 @@ def ob_result_to_queue_cmd(nw: int, b0: bool, b1: bool, q: int, retk: int, t0: i
 @obligation(quick=90, thorough=300,
             partitions_quick=["not has_delay", "has_delay and delay <= 0", "has_delay and delay == 1", "has_delay and delay == 2", "has_delay and delay == 3"],
             partitions_thorough=["not has_delay", "has_delay and delay <= 0", "has_delay and delay == 1", "has_delay and delay == 2", "has_delay and delay == 3"],
-            what="one CommandQueueEvent -> exactly one TickAddEvent (tick_buffer when delay<=0/None, timer heap when delay>0) "
+            what="one CommandQueueEvent (untargeted, or a retry addressed to one step) -> exactly one TickAddEvent with the same address and "
+                 "attempt bookkeeping (tick_buffer when delay<=0/None, timer heap when delay>0) "
                  "-> popped exactly once, never before its deadline (real _ControlLoopRunner.process_command/schedule_tick/pop_due_ticks)",
             bounds={"delay": "None,-1..3", "clock": "ints 0..8", "other heap entries": "0..1"})
-def ob_queue_event_hop(retk: int, has_delay: bool, delay: int, t0: int, dt1: int, dt2: int, other: int) -> bool:
+def ob_queue_event_hop(retk: int, has_delay: bool, delay: int, t0: int, dt1: int, dt2: int, other: int, targeted: bool = False, att: int = 0) -> bool:
     """
-    pre: 0 <= retk <= 2 and -1 <= delay <= 3 and 0 <= t0 <= 2 and 0 <= dt1 <= 3 and 0 <= dt2 <= 3 and -1 <= other <= 4
+    pre: 0 <= retk <= 2 and -1 <= delay <= 3 and 0 <= t0 <= 2 and 0 <= dt1 <= 3 and 0 <= dt2 <= 3 and -1 <= other <= 4 and 0 <= att <= 2
     post: _
     """
     ret = E_B if retk == 0 else (E_C if retk == 1 else E_ASK)
@@ -195,16 +196,26 @@ def ob_queue_event_hop(retk: int, has_delay: bool, delay: int, t0: int, dt1: int
     runner._idle_check_pending = False
     if other >= 0:
         runner.schedule_tick(TickAddEvent(event=E_A), at_time=other)
-    cmd = CommandQueueEvent(event=ret, delay=(delay if has_delay else None))
+    # a retry is a TARGETED command (only the step that failed gets the event again) carrying the attempt bookkeeping
+    cmd = CommandQueueEvent(event=ret, delay=(delay if has_delay else None), step_name=("a" if targeted else None),
+                            attempts=(att if targeted else None), first_attempt_at=(1.0 if targeted else None),
+                            recovery_counts=({"h": 1} if targeted else {}))
     drive(runner.process_command(cmd))
     in_buf = [t for t in runner.tick_buffer if isinstance(t, TickAddEvent) and t.event is ret]
     in_heap = [e for e in runner.scheduled_wakeups if e[2].event is ret]
     immediate = (not has_delay) or delay <= 0
+
+    def same_address(t) -> bool:
+        return (t.step_name == cmd.step_name and t.attempts == cmd.attempts and t.first_attempt_at == cmd.first_attempt_at
+                and dict(t.recovery_counts) == dict(cmd.recovery_counts))
+
     if immediate:
         if len(in_buf) != 1 or in_heap:
             return False
-        return True
+        return same_address(in_buf[0])
     if in_buf or len(in_heap) != 1 or in_heap[0][0] != t0 + delay:
+        return False
+    if not same_address(in_heap[0][2]):
         return False
     # hop 3: popped exactly once, at the first poll at/after the deadline, never earlier
     now1 = t0 + dt1
